@@ -420,6 +420,50 @@ func sigSubstitutes(d *donor, yield func(Mutant)) {
 	}
 }
 
+// unsignedBucket re-signs COSE corpus members with one specification header
+// MOVED from the protected to the unprotected bucket (genuine signature of the
+// leaf key over the reduced protected header), once with its own value and once
+// with a foreign one: whatever is returned must come from the signed bytes.
+func unsignedBucket(c *corpus, yield func(Mutant)) {
+	for _, d := range c.donors {
+		if d.mt != sims.COSE || d.ch == nil {
+			continue
+		}
+		kvs, err := envcodec.SplitMap(d.cose.ProtectedMap)
+		if err != nil {
+			continue
+		}
+		alg := envcodec.KeyAlg(d.ch.Certs[0].PublicKey)
+		if alg == nil {
+			continue
+		}
+		for i, kv := range kvs {
+			if string(kv.K) == string(envcodec.Int(envcodec.CAlg)) {
+				continue
+			}
+			var rest []envcodec.KV
+			rest = append(rest, kvs[:i]...)
+			rest = append(rest, kvs[i+1:]...)
+			for _, foreign := range []bool{false, true} {
+				v := kv.V
+				if foreign {
+					v = envcodec.Tstr("text/foreign")
+				}
+				b := &envcodec.COSEBuild{Prot: rest, Payload: d.cose.Payload, Alg: alg, Key: d.ch.Keys[0].Priv,
+					Unprot: []envcodec.KV{{K: envcodec.Int(envcodec.CX5Chain), V: envcodec.X5Chain(d.cose.Chain)}, {K: kv.K, V: v}}}
+				data, err := envcodec.BuildCOSE(b)
+				if err != nil {
+					continue
+				}
+				if dec, derr := envcodec.DecodeCOSE(data); derr == nil {
+					recordSigned(d.ch.Certs[0].RawSubjectPublicKeyInfo, dec.Signed)
+				}
+				yield(Mutant{MT: d.mt, Class: "reencode", Region: "moved-to-unsigned-bucket", Desc: fmt.Sprintf("%s header %x moved to the unprotected bucket (foreign value: %v), re-signed by the leaf key", d.name, kv.K, foreign), Data: data})
+			}
+		}
+	}
+}
+
 func rebuildJWS(prot, payload, sig *donor, chain *donor) []byte {
 	b := &envcodec.JWSBuild{ProtRaw: prot.jws.ProtectedRaw, Payload: payload.jws.Payload, Sig: sig.jws.Sig, Chain: chain.jws.Chain, Agent: "spliced"}
 	out, err := envcodec.BuildJWS(b)
@@ -869,6 +913,7 @@ func run(r *core.Run) int {
 			m := &muts[i]
 			judge(r, m)
 			if m.Class != "control" && m.Region != "structure" && m.Region != "encoding" && m.Region != "signature-slack" {
+			// (moved-to-unsigned-bucket counts: it changes what is signed)
 				r.Nontrivial(core.Short(m.Data))
 			}
 			if (base+i)%2003 == 0 || m.Class == "reencode" && (base+i)%17 == 0 {
@@ -908,6 +953,7 @@ func run(r *core.Run) int {
 	splices(c, add)
 	chainEdits(c, add)
 	reencodings(c, add)
+	unsignedBucket(c, add)
 	flush()
 	r.Set("corpus_members", len(c.donors))
 	r.Set("mutants", total)
